@@ -13,7 +13,7 @@ ASSUMPTIONS = ["BIE1 per Electrum: S = compressed(a*B); SHA-512(S) -> iv|kE|kM; 
 NSHARDS = {"quick": 32, "thorough": 64}
 BUDGET_S = {"quick": 200, "thorough": 1800}
 MIN_HITS = {
-    'quick': {"enc": 250, "exclude": 60, "ephemeral": 30, "flip": 100000, "flip_pub": 20000, "flip_mac": 20000, "flip_body": 20000, "wrong_key": 250, "len>=16384": 4},
+    'quick': {"enc": 262, "exclude": 35, "ephemeral": 64, "flip": 194070, "flip_pub": 59928, "flip_mac": 67072, "flip_body": 58686, "wrong_key": 262, "len>=16384": 2},
     'thorough': {"enc": 15504, "exclude": 840, "ephemeral": 4608, "flip": 11715673, "wrong_key": 15504, "len>=16384": 48},
 }
 EDGE = [1, 2, 3, (ec.N - 1) // 2, (ec.N + 1) // 2, ec.N - 2, ec.N - 1]
